@@ -486,7 +486,7 @@ struct Spec {
 	long rb = 0, re = 0;
 	// what the client must see (derived)
 	int want_code = 200;
-	std::string want_body, want_content_range;
+	std::string want_body, want_content_range, want_mime, file_ext;
 	// results
 	std::mutex m;
 	int handled = 0;
@@ -1050,7 +1050,23 @@ static SpecP make_spec(const vf::Op& o, int idx, int attempt)
 	s.want_code = s.code;
 	s.want_body = s.respbody;
 	if (s.rmode == RM_FILE) {
-		s.respfile = tmpdir() + "/f_" + idb + ((s.fseed & 1) ? ".txt" : ".bin");
+		// file extension: one of the server's built-in mime table, ".bin" (not in the table), or one that this process has
+		// never served before (every file response looks the extension up in a table shared by all handler threads)
+		static const char* const EXT[][2] = {{"css", "text/css"}, {"gif", "image/gif"}, {"htm", "text/html"}, {"html", "text/html"},
+			{"jpeg", "image/jpeg"}, {"jpg", "image/jpeg"}, {"js", "application/javascript"}, {"json", "application/json"},
+			{"png", "image/png"}, {"txt", "text/plain"}, {"mp4", "video/mp4"}, {"ogv", "video/ogg"}, {"webm", "video/webm"}, {"xml", "text/xml"}};
+		static std::atomic<unsigned> fresh{0};
+		unsigned ek = (unsigned)((s.fseed >> 12) % 32);
+		if (ek < 14) {
+			s.file_ext = EXT[ek][0];
+			s.want_mime = EXT[ek][1];
+		}
+		else {
+			static const char* const shape[] = {"x", "zz", "a", "m", "jsx", "htmlx", "cs", "pn"}; // sort before / between / after the table's keys
+			s.file_ext = ek < 16 ? std::string("bin") : shape[ek % 8] + std::to_string(fresh++);
+			s.want_mime = "text/plain"; // the server's default for extensions without an entry
+		}
+		s.respfile = tmpdir() + "/f_" + idb + "." + s.file_ext;
 		if (s.respbody.empty())
 			s.range = 0; // no satisfiable range of an empty file
 		if (s.range) {
@@ -1127,6 +1143,8 @@ static void check_response(Spec& s, int code, const std::function<std::string(co
 		if (s.client != CL_MINI && cl != std::to_string(s.want_body.size()))
 			e.push_back("client: Content-Length header " + vf::show(cl) + " but the body produced has " + std::to_string(s.want_body.size()) + " bytes");
 	}
+	if (s.rmode == RM_FILE && header("Content-Type") != s.want_mime)
+		e.push_back("client: Content-Type of the file response (extension ." + s.file_ext + ") is " + vf::show(header("Content-Type")) + ", the server's table gives " + vf::show(s.want_mime));
 	if (s.range) {
 		if (header("Content-Range") != s.want_content_range)
 			e.push_back("client: Content-Range " + vf::show(header("Content-Range")) + " != " + vf::show(s.want_content_range));
@@ -1397,6 +1415,8 @@ static void record_stats(const Spec& s, int lanes, const Outcome& out)
 	if (s.rmode == RM_JSON)
 		st.cls("json.response");
 	if (s.rmode == RM_FILE)
+		st.cls(s.file_ext == "bin" ? "file.ext.bin" : s.want_mime != "text/plain" || s.file_ext == "txt" ? "file.ext.builtin" : "file.ext.never_seen_before");
+	if (s.rmode == RM_FILE)
 		st.cls(s.range == 1 ? (s.rb == s.re ? "file.range_single_byte" : "file.range_b-e") : s.range == 2 ? "file.range_b-" : "file.whole");
 	if (s.rmode == RM_STREAM)
 		st.cls("response.streamed_write");
@@ -1652,7 +1672,7 @@ static int genLen(int maxRandom)
 	return *vf::irange<int>(0, maxRandom);
 }
 
-enum { P_GENERAL, P_CONC, P_MINI, P_FILES, P_JSON };
+enum { P_GENERAL, P_CONC, P_MINI, P_FILES, P_JSON, P_FILECONC };
 
 static rc::Gen<vf::Op> genEx(int profile, int maxlen, int lanes)
 {
@@ -1695,7 +1715,7 @@ static rc::Gen<vf::Op> genEx(int profile, int maxlen, int lanes)
 		o.a[A_PSEED] = *vf::irange<int>(0, 1 << 30);
 		o.a[A_PKIND] = *vf::irange<int>(0, 4);
 		int r = *vf::irange<int>(0, 99);
-		o.a[A_RMODE] = profile == P_FILES ? (r < 85 ? RM_FILE : RM_BYTES) : profile == P_JSON ? (r < 70 ? RM_JSON : RM_BYTES)
+		o.a[A_RMODE] = profile == P_FILECONC ? RM_FILE : profile == P_FILES ? (r < 85 ? RM_FILE : RM_BYTES) : profile == P_JSON ? (r < 70 ? RM_JSON : RM_BYTES)
 					   : (r < 40 ? RM_BYTES : r < 50 ? RM_STRING : r < 65 ? RM_STREAM : r < 73 ? RM_JSON : r < 90 ? RM_FILE : RM_NONE);
 		o.a[A_FRAG] = *vf::irange<int>(0, 6);
 		o.a[A_FSEED] = *vf::irange<int>(0, 1 << 30);
@@ -1731,6 +1751,15 @@ static rc::Gen<vf::Op> genEx(int profile, int maxlen, int lanes)
 			o.s.push_back(genHeaderName());
 			o.s.push_back(genHeaderValue());
 		}
+		if (profile == P_FILECONC) { // many small static-file GETs at once
+			o.a[A_CLIENT] = c < 45 ? CL_STATIC : c < 60 ? CL_REQUEST : CL_RAW;
+			o.a[A_METHOD] = 0;
+			o.a[A_FLAGS] = flags & (F_KEEP | F_SETHDR | F_LATECODE | F_NOFOLLOW) & ~((c % 7) ? 0 : F_KEEP);
+			o.a[A_RLEN] = 0;
+			o.a[A_PLEN] = *vf::irange<int>(0, 9) == 0 ? *vf::irange<int>(0, 20000) : *vf::irange<int>(0, 300);
+			o.a[A_RANGE] = rg < 75 ? 0 : 1;
+			o.a[A_CODE] = 0;
+		}
 		return o;
 	});
 }
@@ -1738,7 +1767,7 @@ static rc::Gen<vf::Op> genEx(int profile, int maxlen, int lanes)
 static rc::Gen<vf::Case> genCase(int profile, int maxlen, int maxlanes, int minops)
 {
 	(void)minops;
-	if (profile == P_CONC) {
+	if (profile == P_CONC || profile == P_FILECONC) {
 		// K clients at once: K lanes (2..64, biased to the extremes), every lane gets at least one exchange
 		auto lanesGen = rc::gen::mapcat(vf::irange<int>(0, 9), [=](int k) -> rc::Gen<int> {
 			if (k < 5)
@@ -1746,7 +1775,9 @@ static rc::Gen<vf::Case> genCase(int profile, int maxlen, int maxlanes, int mino
 			return vf::irange<int>(2, maxlanes);
 		});
 		return rc::gen::mapcat(rc::gen::pair(lanesGen, vf::irange<int>(0, 24)), [=](std::pair<int, int> p) {
-			int lanes = p.first;
+			int lanes = profile == P_FILECONC ? 8 + p.first % 25 : p.first;
+			if (profile == P_FILECONC)
+				p.second += lanes; // two or more file requests per lane
 			return rc::gen::map(rc::gen::container<std::vector<vf::Op>>((size_t)(lanes + p.second), genEx(profile, maxlen, lanes)), [=](std::vector<vf::Op> ops) {
 				vf::Case c;
 				for (size_t i = 0; i < ops.size(); i++) {
@@ -1949,4 +1980,6 @@ void vf_search(const vf::Args& a)
 	[&]() { vf::check_cases("refserver", a.n(120, 1200), 5, genCase(P_MINI, 300 << 10, 3, 1)); }();
 	// (5) 2..64 clients in flight at once
 	[&]() { vf::check_cases("concurrent", a.n(36, 250), 10, genCase(P_CONC, 70000, 64, 2)); }();
+	// (6) 8..32 clients requesting small static files at once, about half of them with an extension never served before
+	[&]() { vf::check_cases("concurrent_files", a.n(60, 150), 10, genCase(P_FILECONC, 20000, 32, 2)); }();
 }
